@@ -851,8 +851,14 @@ def r6_removal_on_finish(ctx: Context, rule: str = "C04.R6") -> None:
 
 
 def run(ctx: Context) -> None:
-    r1_coindexed(ctx)
-    r2_refusal_changes_nothing(ctx)
-    r3_deallocate(ctx)
-    r4_r5_copies(ctx)
-    r6_removal_on_finish(ctx)
+    ctx.isolate(r1_coindexed)
+    ctx.isolate(r2_refusal_changes_nothing)
+    ctx.isolate(r3_deallocate)
+    ctx.isolate(r4_r5_copies)
+    ctx.isolate(r6_removal_on_finish)
+    ctx.isolate(_r7_allocation_invariant)
+
+
+def _r7_allocation_invariant(ctx: Context) -> None:
+    from . import c01  # c01 imports this module; resolved at call time
+    c01.r1b_allocation_invariant(ctx, rule="C04.R7")
